@@ -38,6 +38,38 @@ chk("C13", "model_checking", "M1+E1",
     "trace, and is recomputed from the call log at every poll step of every explored deterministic execution.",
     "In noisy modes success is judged on GP estimates that the harness does not second-guess (only double/half/quarter is required there).", "DESIGN 4.13")
 
+chk("C01", "model_checking", "E1+E3",
+    "deviation-bounded exploration of real runs (every call, constraint argument, result and log row checked against the hard box) + exhaustive table of the search-bound rounding",
+    "Complete product geometry{lin,tight,log,mixed,unbounded} x start{interior,on lb,on ub,absent} x mode x landscape{adversarial, minimiser inside/corner/outside} x "
+    "constraint, with answer/noise scripts of <= b deviations; at every call (not only at the end) the wrapper checks lb <= x <= ub with no tolerance, the log rows map back "
+    "exactly to the logged original points and correspond to calls in order; the search-box rounding is tabulated for every reachable search exponent x a bound lattice.",
+    "D<=2 quick / D<=3 thorough; seeds from VERIF_SEED; answer classes only.", "DESIGN 4.1")
+chk("C02", "model_checking", "E1",
+    "deviation-bounded exploration of real runs with the harness's own pure constraint function evaluated at every target call + start-point cells",
+    "Constraint family {half-space, ball, thin slab, annulus} x geometry x mode x D with scripts <= b deviations: every x the target receives and the result must be feasible "
+    "under the harness's own constraint function; start cells (feasible, infeasible, snapping to the mesh crosses the boundary in either direction, on the boundary) must give "
+    "ValueError with zero target calls or a clean run, as the statement says.",
+    "Constraints are pure vectorised functions; don't-care cells where the images of x0 disagree on feasibility are not enumerated.", "DESIGN 4.2")
+chk("C05", "model_checking", "E1",
+    "deviation-bounded exploration of real noisy runs (noise-class scripts) over complete budget windows; tail of the call log vs yval_vec/ysd_vec/fval/fsd",
+    "mode{auto,declared,specified} x noise_final_samples{0,1,3} x every budget in a window above the measured initial design x D x geometry x noise scripts with <= b deviations "
+    "(LOW outliers force the swap to an earlier iterate); noise-test cells around tol_noise decide stochastic vs deterministic classification.",
+    "Noise classes {alt, LOW, HIGH}; either ddof accepted for the standard error.", "DESIGN 4.5")
+chk("C09", "model_checking", "E1",
+    "deviation-bounded exploration of real runs over the mode x constraint x geometry x budget matrix incl. NaN incumbent predictions and single GP-fit faults; oracle = no internal exception escapes",
+    "Complete product mode{det,auto,decl,spec} x constraint{none,half,ball,slab,annulus} x geometry{lin,log,mixed} x D, corner landscapes under specified noise (repeated observations), "
+    "complete budget windows x final samples, answer/noise scripts <= b, every single index of a NaN GP prediction at the incumbent and of a failing GP fit. Crashes are keyed by "
+    "exception type + innermost pybads frame + configuration class.", "Well-behaved targets only; GP misbehaviour modelled as LinAlgError on entry of GP.fit / NaN prediction.", "DESIGN 4.9")
+chk("C10", "fault_enumeration", "E1-faults",
+    "exhaustive fault enumeration: every call index of a baseline run x every fault kind x noise mode on the real optimize()",
+    "For each configuration the fault-free baseline gives N calls; every k in 0..N-1 x every fault kind (4 exception shapes, NaN, +-inf, complex, ndarray vector, list, tuple, None; "
+    "under specified noise also missing/over-long tuple and SD in {0,-1,NaN,inf}) is executed; exception type, no further call, func_count == k and a clean log are checked; "
+    "all phases (x0, noise test, initial design, search, poll, final re-sampling) must be hit.", "One fault per execution; strings and SD=None are not in the statement.", "DESIGN 4.10")
+chk("C16", "fault_enumeration", "E1-faults",
+    "exhaustive fault enumeration over GP.fit invocation indices (singles, runs of 2-4, scattered pairs) with the C01/C03/C04/C05 monitors on every faulted run",
+    "LinAlgError is raised on entry of GP.fit at every single invocation index, every run of 2-4 consecutive indices and every scattered pair, for det/auto/declared/specified noise x D; "
+    "optimize() must complete and keep bounds, budget/count and truthful-result guarantees.", "Fit failure modelled as LinAlgError on entry; >=10 consecutive failures are outside the statement.", "DESIGN 4.16")
+
 NOT_BUILT = {}
 
 ENGINES = [
